@@ -471,45 +471,69 @@ pub fn enc_string(out: &mut Vec<u8>, s: &[u8], huff: bool) {
 }
 
 /// Parse a complete header block into instructions (no table needed).
-pub fn parse_block(mut buf: &[u8]) -> Result<Vec<Instr>, HpackErr> {
-    let mut out = vec![];
-    while !buf.is_empty() {
-        let b = buf[0];
-        if b & 0x80 != 0 {
-            let (i, n) = dec_int(buf, 7)?;
-            out.push(Instr::Indexed(i as usize));
-            buf = &buf[n..];
-        } else if b & 0xe0 == 0x20 {
-            let (i, n) = dec_int(buf, 5)?;
-            out.push(Instr::SizeUpdate(i as usize));
-            buf = &buf[n..];
+/// one instruction at the head of `buf`: (instruction, octets consumed)
+pub fn parse_one(buf0: &[u8]) -> Result<(Instr, usize), HpackErr> {
+    let mut buf = buf0;
+    let b = buf[0];
+    if b & 0x80 != 0 {
+        let (i, n) = dec_int(buf, 7)?;
+        Ok((Instr::Indexed(i as usize), n))
+    } else if b & 0xe0 == 0x20 {
+        let (i, n) = dec_int(buf, 5)?;
+        Ok((Instr::SizeUpdate(i as usize), n))
+    } else {
+        let (prefix, kind) = if b & 0xc0 == 0x40 {
+            (6, 0)
+        } else if b & 0xf0 == 0x10 {
+            (4, 2)
         } else {
-            let (prefix, kind) = if b & 0xc0 == 0x40 {
-                (6, 0)
-            } else if b & 0xf0 == 0x10 {
-                (4, 2)
-            } else {
-                (4, 1)
-            };
-            let (i, n) = dec_int(buf, prefix)?;
+            (4, 1)
+        };
+        let (i, n) = dec_int(buf, prefix)?;
+        buf = &buf[n..];
+        let mut name = vec![];
+        if i == 0 {
+            let (s, n) = dec_string(buf)?;
+            name = s;
             buf = &buf[n..];
-            let mut name = vec![];
-            if i == 0 {
-                let (s, n) = dec_string(buf)?;
-                name = s;
-                buf = &buf[n..];
-            }
-            let (value, n) = dec_string(buf)?;
-            buf = &buf[n..];
-            let name_idx = i as usize;
-            out.push(match kind {
+        }
+        let (value, n) = dec_string(buf)?;
+        buf = &buf[n..];
+        let name_idx = i as usize;
+        Ok((
+            match kind {
                 0 => Instr::LitIncr { name_idx, name, value },
                 1 => Instr::LitNoIdx { name_idx, name, value },
                 _ => Instr::LitNever { name_idx, name, value },
-            });
-        }
+            },
+            buf0.len() - buf.len(),
+        ))
+    }
+}
+
+pub fn parse_block(mut buf: &[u8]) -> Result<Vec<Instr>, HpackErr> {
+    let mut out = vec![];
+    while !buf.is_empty() {
+        let (ins, n) = parse_one(buf)?;
+        out.push(ins);
+        buf = &buf[n..];
     }
     Ok(out)
+}
+
+/// the complete instructions at the start of a (possibly truncated) block
+pub fn parse_block_prefix(mut buf: &[u8]) -> Vec<Instr> {
+    let mut out = vec![];
+    while !buf.is_empty() {
+        match parse_one(buf) {
+            Ok((ins, n)) => {
+                out.push(ins);
+                buf = &buf[n..];
+            }
+            Err(_) => break,
+        }
+    }
+    out
 }
 
 #[derive(Clone, Debug)]
@@ -759,7 +783,7 @@ impl WireDecoder {
             "ty": f.tyname(), "tyn": f.ty, "fl": f.flags, "sid": f.sid as i64, "len": f.payload.len(),
             "es": false, "eh": false, "ack": false, "bad": "",
             "inc": 0, "ch": 0, "cl": 0, "last": 0, "dbg": 0, "dlen": 0, "pl": "",
-            "prom": 0, "hb": false, "bes": false, "blen": 0, "bt": "",
+            "prom": 0, "hb": false, "bes": false, "blen": 0, "bt": "", "pcls": [],
         });
         let p = &f.payload;
         let o = j.as_object_mut().unwrap();
@@ -838,6 +862,14 @@ impl WireDecoder {
                     self.block.extend_from_slice(frag);
                 } else {
                     bad = "cont".into();
+                }
+                if !eh && self.block_open && bad != "cont" {
+                    // header list decoded so far (on a copy of the table): lets the contract see a block that is already malformed
+                    let mut t = self.table.clone();
+                    if let Ok(fl) = t.exec(&parse_block_prefix(&self.block)) {
+                        let (cls, _, _) = classify(&fl);
+                        o.insert("pcls".into(), json!(cls));
+                    }
                 }
                 if eh && self.block_open && bad != "cont" {
                     self.block_open = false;
